@@ -424,6 +424,11 @@ class Facts:
         self.adts = {a["path"]: a for a in self.raw["adts"]}
         self.impls = self.raw["impls"]
         self.consts = {c["path"]: c for c in self.raw["consts"]}
+        from . import expr as _expr
+        _expr.CONST_BODIES.clear()
+        for c in self.raw["consts"]:
+            if c.get("body"):
+                _expr.CONST_BODIES[c["path"]] = c["body"]
         self.sigs = {s["path"]: s for s in self.raw["sigs"]}
         self._cg = None
         self.orig = self
